@@ -148,6 +148,18 @@ impl TreeCache {
         }
     }
 
+    /// verification hook: like new(), but with caller-chosen salts instead of
+    /// OS randomness
+    #[cfg(feature = "verif-hooks")]
+    pub fn new_with_salt(sentinel: Option<NodePtr>, salt: [u8; 8], hasher_seed: u64) -> Self {
+        Self {
+            sentinel_node: sentinel,
+            atom_lookup: HashMap::with_hasher(RandomState::with_seed(hasher_seed)),
+            salt,
+            ..Default::default()
+        }
+    }
+
     pub fn undo_state(&self) -> TreeCacheCheckpoint {
         let sentinel_entry = match self.sentinel_node {
             Some(sentinel) => self.node_map.get(&sentinel).cloned(),
